@@ -94,7 +94,7 @@ def gen_module(rng, params):
         for i in range(rng.randint(1, 4)):
             b = {"id": ids("b"), "kind": "data", "labels": [], "end_labels": [], "items": []}
             if rng.random() < 0.8:
-                nm = ids("D")
+                nm = ids("Dt")
                 b["labels"].append(nm)
                 data_labels.append(nm)
             if rng.random() < 0.15:
@@ -186,6 +186,10 @@ def gen_module(rng, params):
     # CFI procedures (x86-64 ELF): contiguous runs of code blocks
     if isa == "x64" and fmt == "elf" and rng.random() < params.get("cfi_p", 0.0):
         _gen_cfi(rng, isa, blocks, desc, data_labels, ids)
+    # symbolForwarding entries (extern -> some symbol)
+    if desc["externs"] and rng.random() < params.get("fwd_p", 0.0):
+        pool = code_labels + data_labels + desc["externs"]
+        desc["symbol_forwarding"] = [[e, rng.choice(pool)] for e in desc["externs"] if rng.random() < 0.6]
     # alignment
     if rng.random() < params.get("align_p", 0.3):
         for b in blocks + dblocks:
@@ -605,7 +609,10 @@ def ops_allowed(model, sd):
             if sp.func and sum(1 for s2 in model.span_list[sp.sect] if s2.func == sp.func and s2.size) > 1:
                 return False
     for op in sd["ops"]:
-        lines = (op.get("patch") or {}).get("lines") or []
+        lines = (op.get("patch") or {}).get("lines")
+        if lines is not None and not any("label" not in l and not ("raw" in l and (l["raw"].startswith(".cfi") or l["raw"].startswith(".align"))) for l in lines):
+            return False  # a patch must assemble to at least one byte
+        lines = lines or []
         adj = [int(l["raw"].split()[-1]) for l in lines if "raw" in l and "cfi_adjust_cfa_offset" in l["raw"]]
         if adj and (op["k"] == "insfn" or sum(adj) != 0 or len(adj) != 2 or adj[0] < 0):
             return False
@@ -661,7 +668,7 @@ def shape_ok(model, sd, params):
     try:
         mods = []
         for oi, op in enumerate(sd["ops"]):
-            if op["k"] in ("insfn", "reg"):
+            if op["k"] in ("insfn", "reg", "retarget", "delsym", "extern"):
                 continue
             for key, off, length, op2 in driver.expand_op(m, op):
                 sp = m.spans[key]
@@ -681,11 +688,23 @@ def shape_ok(model, sd, params):
     except Exception:
         return False
     targets = set()
+    mp = {op["a"]: op["b"] for op in sd["ops"] if op["k"] == "retarget"}
     for sname in m.section_order:
         for u in m.sections[sname]:
             for a in u.toks:
                 if a.kind == "insn" and a.ikind in ("jmp", "jcc", "call") and a.target:
-                    targets.add(a.target)
+                    targets.add(mp.get(a.target, a.target))
+    for op in sd["ops"]:
+        for l in (op.get("patch") or {}).get("lines") or []:
+            if l.get("v") in ("jmp", "jcc", "call") and l.get("t") and not l.get("ttemp"):
+                targets.add(mp.get(l["t"], l["t"]))
+    # a control-flow target must not be an end-of-block label (the edge
+    # would lead to the start of its block)
+    for sname in m.section_order:
+        for u in m.sections[sname]:
+            for t in u.toks:
+                if t.kind == "label" and t.name in targets and t.at_end:
+                    return False
     # rule 2: control-flow targets label code
     for sname in m.section_order:
         for u in m.sections[sname]:
@@ -882,6 +901,8 @@ def _gen_session(rng, model, params, index):
                 i = j + 1
             else:
                 i += 1
+    if params.get("retarget_p") and rng.random() < params["retarget_p"]:
+        ops.extend(gen_retargets(rng, model, wl))
     if params.get("c09"):
         # batch vs one-at-a-time is only defined for modifications at
         # distinct places (same-offset order is a registration-order matter)
@@ -890,7 +911,7 @@ def _gen_session(rng, model, params, index):
         seen_loc = set()
         keep = []
         for o in ops:
-            if o["k"] in ("insfn", "reg"):
+            if o["k"] in ("insfn", "reg", "retarget", "delsym", "extern"):
                 continue
             try:
                 exp = driver.expand_op(model, o)
@@ -917,11 +938,56 @@ def _gen_session(rng, model, params, index):
     return {"ops": ops, "reg_order": order}
 
 
+def gen_retargets(rng, model, wl):
+    """retarget_symbol_uses(A, B): A/B internal or external in every
+    combination, chains A->B, B->C, several at once.  Avoided by
+    construction: symbols that occur in sym-sym expressions; a control-flow
+    use retargeted to a data label is generated on purpose only through
+    'bad' requests (refusal expected)."""
+    in_diff = set()
+    used_cf = set()
+    used_any = set()
+    for _, u in model.units():
+        for t in u.toks:
+            for rel, size, ed in t.sx:
+                if ed[0] == "diff":
+                    in_diff.update([ed[1], ed[2]])
+                else:
+                    used_any.add(ed[1])
+                    if t.kind == "insn" and t.ikind in ("jmp", "jcc", "call"):
+                        used_cf.add(ed[1])
+    code = [n for n in wl["code"] if n not in in_diff]
+    data = [n for n in wl["data"] if n not in in_diff]
+    ext = [n for n in wl["externs"] if n not in in_diff]
+    ops = []
+    taken = set()
+    for _ in range(rng.choice([1, 1, 2, 3])):
+        pool_a = [n for n in code + data + ext if n not in taken]
+        # prefer symbols that are actually used
+        used = [n for n in pool_a if n in used_any]
+        if used and rng.random() < 0.8:
+            pool_a = used
+        if not pool_a:
+            break
+        a = rng.choice(pool_a)
+        if a in used_cf or a in code:
+            pool_b = code + ext
+        else:
+            pool_b = code + data + ext
+        pool_b = [n for n in pool_b if n != a]
+        if not pool_b:
+            break
+        b = rng.choice(pool_b)
+        taken.add(a)
+        ops.append({"k": "retarget", "a": a, "b": b})
+    return ops
+
+
 def _op_func(model, op):
     from . import driver
 
     try:
-        if op["k"] in ("insfn", "reg"):
+        if op["k"] in ("insfn", "reg", "retarget", "delsym", "extern"):
             return None
         if op["k"] == "delfn":
             return op["func"]
@@ -941,13 +1007,28 @@ def _avoid_ambiguous(model, ops):
 
     loc = {}
     for oi, op in enumerate(ops):
-        if op["k"] in ("delfn", "insfn", "reg"):
+        if op["k"] in ("delfn", "insfn", "reg", "retarget", "delsym", "extern"):
             continue
         try:
             key, off, length = driver.resolve_op(model, op)
         except Exception:
             continue
         loc[oi] = (key, off, length)
+    # nothing is inserted at the end of a block whose successor was deleted
+    # with retarget_to_proxy earlier (its fallthrough / return site is the
+    # proxy; what code placed in between means for them is not specified)
+    for oi, (key, off, length) in loc.items():
+        sp = model.spans[key]
+        if off + length == sp.size and sp.end_mark is not None:
+            toks_u = sp.unit.toks
+            i = next((k for k, t in enumerate(toks_u) if t is sp.end_mark), None)
+            if i is not None:
+                j = i + 1
+                while j < len(toks_u) and not toks_u[j].is_bytes():
+                    if toks_u[j].kind == "pmark":
+                        ops[oi]["_drop"] = True
+                        break
+                    j += 1
     # end-of-block edit points
     ends = {}
     for oi, (key, off, length) in loc.items():
